@@ -46,12 +46,15 @@ LEVEL_NOTE = ("Trusted: Lean kernel + standard axioms; hand transliterations tie
               "dependency map, subs, get_dependencies; task-spec cull, substitute, resolve_aliases, fuse_linear_task_spec, "
               "GraphNode.fuse incl. its ValueError, default_fused_keys_renamer with key_split taken from the real code and the md5 "
               "digest recomputed by the harness); every real optimiser output is evaluated with dask.core.get; the model's evaluator "
-              "of fused graphs (evalKeyF) is diffed against the real execution of _execute_subgraph tasks. No known finding is "
+              "of fused graphs (evalKeyF) is diffed against the real execution of _execute_subgraph tasks; every legacy pass is called "
+              "with list and set key containers, with and without dependencies=, inline_functions with inline_constants False/True, "
+              "under an argument-purity oracle (graph, keys, dependencies unchanged by the call). No known finding is "
               "left. Fixed in /repo: fuse(ave_width=inf) OverflowError; fuse_linear_task_spec with unrenamable keys stored the "
               "fused task under None; key_split(()) IndexError; fuse_linear_task_spec overwrote a task when the renamed key was "
               "taken (11f7d6c); substitute/fuse ignored a falsy new key (7e731f4); Alias.substitute ignored key= for an identity "
               "entry (3dbafa6); dict values were dependencies but not substituted/evaluated (ca6daad, 7bc9664); non-task tuples "
-              "were evaluated elementwise by the conversion but invisible to cull/subs/fuse (83e63e1).")
+              "were evaluated elementwise by the conversion but invisible to cull/subs/fuse (83e63e1); inline() mutated a set passed "
+              "as keys (98a9c60).")
 TECHNIQUE = ("Lean 4 proof (substitution lemmas, reachability closure, least-fixpoint evaluation with a transfer lemma, counting "
              "invariant) + proved checkers on real optimiser outputs + differential correspondence")
 ASSUMPTIONS = ["user functions are pure and total and left uninterpreted",
@@ -60,7 +63,7 @@ ASSUMPTIONS = ["user functions are pure and total and left uninterpreted",
                "resolve_aliases is reverse_dict of the graph's dependencies (checked per case: countRefs = len(dependents[k]))",
                "fused-key names stay apart only as far as md5 of the full name is collision-free (renamer_collision_iff is exact; "
                "fuse_linear_task_spec and fuse additionally fall back to the top key when a name is taken)"]
-CASE_TIMEOUT_S = 15
+CASE_TIMEOUT_S = 45
 
 
 def _vals(dsk, keys):
@@ -206,8 +209,39 @@ def _renamer(keys):
     return "R-" + "-".join(str(k) if not isinstance(k, tuple) else "_".join(map(str, k)) for k in keys)
 
 
+def _snap_arg(c):
+    """a printable snapshot of a keys / dependencies argument (container type included)"""
+    if c is None:
+        return None
+    if isinstance(c, dict):
+        return (type(c).__name__, sorted((repr(k), type(v).__name__, sorted(map(repr, v))) for k, v in c.items()))
+    if isinstance(c, (list, set, tuple)):
+        return (type(c).__name__, sorted(map(repr, c)) if isinstance(c, set) else list(map(repr, c)))
+    return repr(c)
+
+
+class _Pure:
+    """argument purity: an optimisation pass returns new graphs; it must not modify the graph, the key container or the
+    dependency map it was given"""
+
+    def __init__(self, ctx, dsk):
+        self.ctx, self.dsk, self.snap = ctx, dsk, _jkey_graph(dsk)
+
+    def run(self, op, fn, *args):
+        before = [_snap_arg(a) for a in args]
+        out = fn()
+        if _jkey_graph(self.dsk) != self.snap:
+            self.ctx.fail(f"{op}: the input graph was modified by the call")
+        for a, b in zip(args, before):
+            if _snap_arg(a) != b:
+                self.ctx.fail(f"{op}: an argument (keys / dependencies) was modified by the call",
+                              observed=[_snap_arg(a)], expected=[b])
+        return out
+
+
 def case_opt(ctx, inp):
     """all legacy passes on one graph / one requested key set"""
+    from dask.core import get_dependencies
     from dask.optimization import cull, fuse, fuse_linear, inline, inline_functions
     items = inp["graph"]
     dsk = {build(k): build(v) for k, v in items}
@@ -223,9 +257,15 @@ def case_opt(ctx, inp):
     for c in classes:
         ctx.branch("class-" + c)
     rng_choices = inp.get("sel", [])
+    pure = _Pure(ctx, dsk)
+    ldeps = {k: get_dependencies(dsk, k, as_list=True) for k in dsk}       # dependencies= as cull returns them
+    sdeps = {k: get_dependencies(dsk, k) for k in dsk}                     # ... and as sets
+    kset = set(keys)
     # cull (+ function-level diff with the model)
     try:
-        c, cdeps = cull(dsk, keys)
+        c, cdeps = pure.run("cull", lambda: cull(dsk, keys), keys)
+        c2, cdeps2 = pure.run("cull", lambda: cull(dsk, kset), kset)
+        ctx.eq("cull with a list and with a set of keys", _jkey_graph(c2), _jkey_graph(c))
     except Exception as e:
         ctx.fail(f"cull raised {type(e).__name__}: {e}")
         c = None
@@ -241,15 +281,15 @@ def case_opt(ctx, inp):
             ctx.branch("cull-removes")
     # inline: chosen non-requested keys, then everything non-requested with constants
     sel = [allkeys[i] for i in rng_choices if allkeys[i] not in keys]
-    for name, ks, const in (("inline", sel, False), ("inline", [k for k in allkeys if k not in keys], True),
-                            ("inline", sel, True)):
+    for name, ks, const, dp in (("inline", sel, False, None), ("inline", [k for k in allkeys if k not in keys], True, None),
+                                ("inline", sel, True, ldeps), ("inline", set(sel), True, sdeps), ("inline", set(sel), False, None)):
         try:
-            g = inline(dsk, ks, inline_constants=const)
+            g = pure.run("inline", lambda: inline(dsk, ks, inline_constants=const, dependencies=dp), ks, dp)
         except Exception as e:
             ctx.fail(f"inline raised {type(e).__name__}: {e}")
             continue
         _check_graph(ctx, "inline", items, dsk, keys, g, None, want, classes)
-        from dask.core import get_dependencies, ishashable, istask
+        from dask.core import ishashable, istask
         S = set(ks)
         if const:
             S |= {k for k, v in dsk.items() if (ishashable(v) and v in dsk) or (not get_dependencies(dsk, k) and not istask(v))}
@@ -257,21 +297,37 @@ def case_opt(ctx, inp):
         if g != dsk:
             ctx.branch("inline-changes")
     # inline_functions
-    for fast in ([FUNCS[0]], [FUNCS[0], FUNCS[1], FUNCS[2]], FUNCS):
-        try:
-            g = inline_functions(dsk, keys, fast)
-        except Exception as e:
-            ctx.fail(f"inline_functions raised {type(e).__name__}: {e}")
-            continue
-        _check_graph(ctx, "inline_functions", items, dsk, keys, g, None, want, classes)
-        _checker(ctx, "inline_functions", items, dsk, g, [k for k in dsk if k not in g], keys, classes)
-        if len(g) < len(dsk):
-            ctx.branch("inline_functions-removes")
+    from dask.core import ishashable, istask
+    consts = {k for k, v in dsk.items() if (ishashable(v) and v in dsk) or (not get_dependencies(dsk, k) and not istask(v))}
+    req_kinds = {("constant-or-alias" if k in consts else "task") for k in keys}
+    for fi, fast in enumerate(([FUNCS[0]], [FUNCS[0], FUNCS[1], FUNCS[2]], FUNCS)):
+        for const in (False, True):
+            outp = kset if (fi + const) % 2 else keys          # `output` as a list and as a set
+            dp = sdeps if (fi + const) % 3 == 0 else None
+            try:
+                g = pure.run("inline_functions", lambda: inline_functions(dsk, outp, fast, inline_constants=const, dependencies=dp),
+                             outp, fast, dp)
+            except Exception as e:
+                ctx.fail(f"inline_functions raised {type(e).__name__}: {e}")
+                continue
+            _check_graph(ctx, "inline_functions", items, dsk, keys, g, None, want, classes)
+            dropped = [k for k in dsk if k not in g]
+            # with inline_constants=True the constants / aliases are substituted as well (they stay in the graph)
+            S = dropped + ([k for k in dsk if k in consts and k not in dropped] if const and dropped else [])
+            _checker(ctx, "inline_functions", items, dsk, g, S, keys, classes)
+            if len(g) < len(dsk):
+                ctx.branch("inline_functions-removes" + ("-inline_constants" if const else ""))
+                if const and "constant-or-alias" in req_kinds:
+                    ctx.branch("inline_functions-inline_constants-with-requested-constant")
     # fuse_linear
     for rk in (True, False, _renamer):
         for kk in (keys, None):
             try:
-                g, d = fuse_linear(dsk, keys=kk, rename_keys=rk)
+                g, d = pure.run("fuse_linear", lambda: fuse_linear(dsk, keys=kk, rename_keys=rk), kk)
+                if rk is False and kk is not None:
+                    # the same with a set of keys and the dependency map of cull (lists)
+                    g3, d3 = pure.run("fuse_linear", lambda: fuse_linear(dsk, keys=kset, dependencies=ldeps, rename_keys=rk), kset, ldeps)
+                    ctx.eq("fuse_linear with keys as a set and dependencies given", _jkey_graph(g3), _jkey_graph(g))
             except Exception as e:
                 ctx.fail(f"fuse_linear raised {type(e).__name__}: {e}")
                 continue
@@ -300,7 +356,10 @@ def case_opt(ctx, inp):
         for rk in (True, False, _renamer):
             for kk in ((keys, None) if gi % 3 == 0 else (keys,)):
                 try:
-                    g, d = fuse(dsk, keys=kk, ave_width=aw, max_width=mw, max_height=mh, max_depth_new_edges=mdne, rename_keys=rk)
+                    dp = ldeps if gi % 2 else None
+                    kk2 = kset if (kk is not None and gi % 2) else kk
+                    g, d = pure.run("fuse", lambda: fuse(dsk, keys=kk2, dependencies=dp, ave_width=aw, max_width=mw, max_height=mh,
+                                                         max_depth_new_edges=mdne, rename_keys=rk), kk2, dp)
                 except Exception as e:
                     ctx.fail(f"fuse raised {type(e).__name__}: {e}",
                              observed=[aw if aw != math.inf else "inf", mw, mh if mh != math.inf else "inf", mdne, str(rk)])
